@@ -319,6 +319,20 @@ def srcDeltaOr : List CPat → Val → Delta
   | p :: ps, v => if pmatch (absOf p) v then srcDelta p v else srcDeltaOr ps v
 end
 
+/-! ### Temporaries of the bindings.
+`lower_match` / `lower_if_else` / `lower_block` build `binding_names` before lowering the pattern:
+`for (n, t) in pattern.bindings() { let name = allocate_temp_variable(); binding_names.insert(n, name); … }`
+(hir_lowering.rs:596-605, 900-908, 1142-1148).  `bindings()` is a `BTreeMap` (each source name once),
+`allocate_temp_variable` hands out `_t<counter>` and increments the counter. -/
+
+/-- `binding_names` for the (distinct) source names `ns`, starting at temp counter `c` -/
+def allocTemps : List Nat → Nat → List (Nat × Nat)
+  | [], _ => []
+  | n :: ns, c => (n, c) :: allocTemps ns (c + 1)
+
+/-- the assignments as the emitted code performs them: on the temporaries, not on the source names -/
+def renameDelta (bn : Nat → Nat) (d : Delta) : Delta := d.map (fun b => (bn b.1, b.2))
+
 /-! ### `if let p = e { a } else { b }` (hir_lowering.rs:586-645) and `let p = e;` (…:1138-1152) -/
 
 /-- `condition == hir::ZERO` -/
